@@ -242,24 +242,29 @@ def run(ctx):
   embs = ["sparse", "dense", "mixed", "denseu"] + ([] if ctx.quick else ["denseb"])
   inputs, model = fnspec.enumerate_inputs("MC_Relabel", cfg, ctx.workdir)
   ctx.log("TLC enumerated %d inputs (%d distinct states), %.1fs" % (len(inputs), model["distinct"], model["wall"]))
-  files = fnspec.run_cases("fn_relabel.py", inputs, ctx.workdir, extra={"embs": embs}, per_shard=800)
-  rand = random_inputs(ctx.seed, 8000 if ctx.quick else 150000)
-  rfiles = fnspec.run_cases("fn_relabel.py", rand, ctx.workdir, tag="rand", per_shard=500)
+  rand = random_inputs(ctx.seed, 6000 if ctx.quick else 150000)
+  # grid inputs and random inputs share the worker runs and the judging JVMs (few, large shards)
+  files = fnspec.run_cases("fn_relabel.py", inputs + rand, ctx.workdir, extra={"embs": embs},
+                           nshards=8 if ctx.quick else 16)
 
-  # binding self-test, part 1: hand-corrupted outputs, judged in the same TLC runs as the real cases
+  # binding self-test, part 1: hand-corrupted outputs, appended to the last shard so that they are judged
+  # in the same TLC run as real cases (they are not counted and not reported)
   muts = _mutations()
-  mfile = ctx.workdir + "/selftest-mutations.json"
-  json.dump([c for _, c in muts], open(mfile, "w"))
+  last = json.load(open(files[-1]))
+  first_mut = len(last) + 1
+  json.dump(last + [c for _, c in muts], open(files[-1], "w"))
 
-  failures, n, wall = fnspec.judge("Trace_Relabel", files + rfiles + [mfile], ctx.workdir)
+  failures, n, wall = fnspec.judge("Trace_Relabel", files, ctx.workdir)
   n -= len(muts)
   ctx.log("TLC judged %d recorded calls in %.1fs" % (n, wall))
-  verdict = {f["i"]: f["c"] for f in failures if f["file"] == mfile}
+  is_mut = lambda f: f["file"] == files[-1] and f["i"] >= first_mut
+  verdict = {f["i"] - first_mut: f["c"] for f in failures if is_mut(f)}
   for k, (clause, _) in enumerate(muts):
-    got = verdict.get(k + 1, [])
+    got = verdict.get(k, [])
     if (clause and clause not in got) or (not clause and got):
       raise fnspec.tlc.MachineryError("self-test: mutation %d expected %r, Trace_Relabel said %s" % (k, clause, got))
-  failures = [f for f in failures if f["file"] != mfile]
+  failures = [f for f in failures if not is_mut(f)]
+  json.dump(last, open(files[-1], "w"))
   # part 2: a REAL recorded case whose new key is moved behind the row it ties with
   def mutate(case):
     out = case["out"]
@@ -272,15 +277,18 @@ def run(ctx):
   # coverage facts (counting only)
   stats = {}
   nontrivial = 0
-  for f in files + rfiles:
+  samples = []
+  for f in files:
     for c in json.load(open(f)):
+      if len(samples) < 3 and c["out"]["adj"] and c["inp"]["emb"] in ("dense", "random:cluster", "random:signed") \
+          and c["inp"]["emb"] not in [x["inp"]["emb"] for x in samples]:
+        samples.append(c)
       s = stats.setdefault(c["inp"]["emb"], {"cases": 0, "with_adjustments": 0, "raised": 0})
       s["cases"] += 1
       s["with_adjustments"] += 1 if c["out"]["adj"] else 0
       s["raised"] += 1 if c["exc"] else 0
       nontrivial += 1 if c["out"]["old"] and c["out"]["req"] else 0
   n_grid = sum(stats[e]["cases"] for e in embs)
-  samples = [c for c in json.load(open(files[0])) if c["out"]["adj"]][:2] + json.load(open(rfiles[0]))[:1]
   return {
     "states": model["distinct"] + n, "transitions": model["generated"] + n,
     "traces_validated_against_impl": n,
